@@ -114,9 +114,10 @@ def execute_fnml(data, fnml_df, fnml_execution, config):
     # TODO: this can be avoided for many built-in functions and also UDFs with a special parameter
     #if function_id in ['http://users.ugent.be/~bjdmeest/function/grel.ttl#string_split']:
 
-    data = remove_null_values_from_dataframe(data, config, fnml_execution, column=fnml_execution)
-
     # only list values are exploded, strings that encode lists are not exploded
     data = data.explode(fnml_execution)
+
+    # NULLs are removed after exploding, so that NULL elements of list results (and empty lists) are removed too
+    data = remove_null_values_from_dataframe(data, config, fnml_execution, column=fnml_execution)
 
     return data
